@@ -46,12 +46,12 @@ def toCh (s : String) : List Num.Ch := s.toList.map fun c =>
 def kindOfTok (t : String) : Option Kind :=
   if t == "null" then some .n
   else if t == "true" || t == "false" then some .b
-  else if t.startsWith "\"" then some .s
+  else if t.toList.head? == some '"' then some .s
   else match Num.scan (toCh t) with
     | none => none
     | some n =>
-      let dot := t.any (· == '.')
-      let exp := t.any (fun c => c == 'e' || c == 'E')
+      let dot := t.toList.any (· == '.')
+      let exp := t.toList.any (fun c => c == 'e' || c == 'E')
       if (dot && !exp) || n.exp != 0 then some .f else some .i
 
 /-- `Min.Validate` / `Max.Validate` -/
